@@ -315,3 +315,79 @@ pub fn node_round_trip(p: &Pos, bb: &mut Bitboard, rep: &mut Report) {
         }
     }
 }
+
+/// The key table behind the hash, observed through the hash itself: the effect of every single
+/// component (each piece on each square, side to move, each castling right, each en-passant file)
+/// is the xor-difference of two hashes that differ in that component only. Every effect must be
+/// non-zero (changing the component changes the hash) and no two effects may coincide — otherwise
+/// the two positions P+a and P+b hash identically for EVERY P, a systematic collision, not a
+/// 64-bit accident. Done once per run (about 800 hash computations).
+pub fn key_table(rep: &mut Report) {
+    let h = |fen: &str| -> Option<(u64, u64)> {
+        match guarded_mut(|| load_fen(fen).map(|bb| (bb.calculate_zobrist_hash(), bb.calculate_zobrist_pawn_hash()))) {
+            Ok(Ok(x)) => Some(x),
+            _ => None,
+        }
+    };
+    let empty = "8/8/8/8/8/8/8/8 w - - 0 1";
+    let h0 = match h(empty) { Some(x) => x, None => { rep.inconclusive("the empty board could not be hashed; key table not derived"); return; } };
+    let mut keys: Vec<(String, u64)> = Vec::new();
+    let letters = ['P', 'N', 'B', 'R', 'Q', 'K', 'p', 'n', 'b', 'r', 'q', 'k'];
+    for pc in letters {
+        for s in 0..64u8 {
+            let (f, r) = (file_of(s), rank_of(s));
+            if (pc == 'P' || pc == 'p') && (r == 0 || r == 7) { continue; }
+            // FEN ranks from 8 down to 1
+            let mut ranks = Vec::new();
+            for rr in (0..8).rev() {
+                if rr == r {
+                    let mut t = String::new();
+                    if f > 0 { t.push_str(&f.to_string()); }
+                    t.push(pc);
+                    if f < 7 { t.push_str(&(7 - f).to_string()); }
+                    ranks.push(t);
+                } else { ranks.push("8".to_string()); }
+            }
+            let fen = format!("{} w - - 0 1", ranks.join("/"));
+            match h(&fen) { Some(x) => keys.push((format!("{} on {}", pc, sq_name(s)), x.0 ^ h0.0)), None => { rep.inconclusive("a single-piece board could not be hashed; key table incomplete"); return; } }
+        }
+    }
+    if let Some(x) = h("8/8/8/8/8/8/8/8 b - - 0 1") { keys.push(("side to move".into(), x.0 ^ h0.0)); }
+    // castling rights on a board that carries kings and rooks at home
+    let home = |c: &str| format!("r3k2r/8/8/8/8/8/8/R3K2R w {} - 0 1", c);
+    if let Some(all) = h(&home("KQkq")) {
+        for (name, without) in [("right K", "Qkq"), ("right Q", "Kkq"), ("right k", "KQq"), ("right q", "KQk")] {
+            if let Some(x) = h(&home(without)) { keys.push((name.into(), x.0 ^ all.0)); }
+        }
+    }
+    // en-passant files (both colours' target ranks must agree per file as the hash depends on the file only)
+    for f in 0..8 {
+        let file = (b'a' + f as u8) as char;
+        let w = h(&format!("8/8/8/8/8/8/8/8 w - {}6 0 1", file));
+        let b = h(&format!("8/8/8/8/8/8/8/8 b - {}3 0 1", file));
+        let hb = h("8/8/8/8/8/8/8/8 b - - 0 1");
+        if let Some(w) = w { keys.push((format!("en passant file {}", file), w.0 ^ h0.0)); }
+        if let (Some(w), Some(b), Some(hb)) = (w, b, hb) {
+            rep.eval();
+            if (w.0 ^ h0.0) != (b.0 ^ hb.0) {
+                rep.violation("en-passant-key-depends-on-more-than-the-file", format!("en passant on {}6 changes the hash by {:x}, on {}3 by {:x}", file, w.0 ^ h0.0, file, b.0 ^ hb.0), json!({"kind":"c06-keys"}));
+            }
+        }
+    }
+    rep.add("hash_keys_derived", keys.len() as u64);
+    let mut seen: HashMap<u64, String> = HashMap::new();
+    for (name, k) in &keys {
+        rep.eval();
+        if *k == 0 {
+            rep.violation(&format!("key-zero:{}", name.split(' ').next().unwrap_or("")), format!("{} does not change the hash", name), json!({"kind":"c06-keys"}));
+            continue;
+        }
+        if let Some(other) = seen.get(k) {
+            let class = |n: &str| if n.starts_with("en passant") { "ep" } else if n.starts_with("right") { "castle" } else if n.starts_with("side") { "side" } else { "piece" };
+            rep.violation(&format!("key-collision:{}-vs-{}", class(other), class(name)), format!("{} and {} change the hash by the same amount {:x}: the two positions P+({}) and P+({}) hash identically for every P", other, name, k, other, name), json!({"kind":"c06-keys"}));
+        } else {
+            seen.insert(*k, name.clone());
+        }
+        rep.distinct_hash(*k);
+    }
+}
